@@ -597,6 +597,10 @@ where
                                                 tracing::error!("err {:?}", _err);
                                                 #[cfg(feature = "log")]
                                                 log::error!("err {:?}", _err);
+                                                // A transport error (I/O, framing, elapsed idle
+                                                // time-out) does not go away: waiting for the
+                                                // remote close any longer would spin on it
+                                                break
                                             },
                                             None => break
                                         }
